@@ -54,7 +54,12 @@ def ort_run(model: onnx.ModelProto, feeds: dict) -> list:
     b = model.SerializeToString()
     try:
         sess = ort.InferenceSession(b, _ORT, providers=["CPUExecutionProvider"])
-    except Exception:  # noqa: BLE001
+    except Exception as e:  # noqa: BLE001
+        # ONLY the known optimiser defect is retried: on a really invalid model the unoptimised session does not
+        # raise but ABORTS the process (vector index assertion inside onnxruntime) - exit 134, no verdict
+        if "GetIndexFromName" not in str(e):
+            raise
+        onnx.checker.check_model(model, full_check=True)
         sess = ort.InferenceSession(b, _ORT_PLAIN, providers=["CPUExecutionProvider"])
         ORT_FALLBACKS["unoptimised"] += 1
     return sess.run(None, feeds)
